@@ -119,11 +119,12 @@ def driver_bin():
 # ------------------------------------------------------------------------------------------------
 SUITE_ARGS = {
     "bytes": ["bytes"],
+    "emplace": ["emplace"],
 }
 
 def run_suite(name, tier, seed, fp):
     """returns dict(trace=path, model=path, crashed=bool, wall=float)"""
-    key = hashlib.sha256(f"{name}|{tier}|{seed}|{fp}|{tree_hash([HARNESS_SRC], ('.rs', '.in'))}|{tree_hash([LEAN], ('.lean', '.toml'))}".encode()).hexdigest()[:20]
+    key = hashlib.sha256(f"{name}|{tier}|{seed}|{fp}|{tree_hash([HARNESS_SRC], ('.rs', '.in'))}|{tree_hash([LEAN], ('.lean', '.toml'))}|{tree_hash([os.path.join(VERIF, 'corpus')], ('.txt',))}".encode()).hexdigest()[:20]
     cdir = os.path.join(BUILD, "cache", key)
     meta = os.path.join(cdir, "meta.json")
     if os.path.exists(meta):
@@ -135,6 +136,14 @@ def run_suite(name, tier, seed, fp):
     with open(trace, "wb") as f:
         p = subprocess.run([harness_bin()] + SUITE_ARGS[name] + ["--seed", str(seed), "--tier", tier], stdout=f, stderr=subprocess.PIPE, timeout=7200)
     crashed = p.returncode != 0
+    # corpus of recorded cases (witnesses of known findings and of repaired defects) runs with every suite
+    cp = os.path.join(VERIF, "corpus", name + ".txt")
+    if os.path.exists(cp) and not crashed:
+        with open(cp, "rb") as fi:
+            pc = subprocess.run([harness_bin(), "exec"], stdin=fi, stdout=subprocess.PIPE, stderr=subprocess.PIPE, timeout=600)
+        with open(trace, "ab") as f:
+            f.write(b"".join(l + b"\n" for l in pc.stdout.split(b"\n") if l and not l.startswith(b"T ")))
+        crashed = crashed or pc.returncode != 0
     with open(trace, "rb") as fi, open(model, "wb") as fo:
         p2 = subprocess.run([driver_bin()], stdin=fi, stdout=fo, stderr=subprocess.PIPE, timeout=7200)
     m = dict(trace=trace, model=model, crashed=crashed, rc=p.returncode, stderr=p.stderr.decode("utf-8", "replace")[-2000:],
@@ -183,6 +192,46 @@ def parse_rhs(r):
         d["cls"] = "?"; d["raw"] = r
     return d
 
+def parse_emp(r):
+    """RHS of E / F / A lines: `<res> <after> [k=v ...] [OUTSIDE-WRITTEN]`"""
+    d = {}
+    if r.endswith(" OUTSIDE-WRITTEN"):
+        d["outside"] = True
+        r = r[: -len(" OUTSIDE-WRITTEN")]
+    toks = r.split(" ") if r else []
+    if not toks:
+        d["cls"] = "MEMFAULT"; return d
+    d["res"] = toks[0]
+    d["cls"] = toks[0].split(":")[0]
+    if d["cls"] == "err":
+        k, p = toks[0][4:].split("@"); d["kind"] = k; d["pos"] = int(p)
+    if d["cls"].startswith("FAULT") or d["cls"] in ("MODEL-ERR", "BAD-INIT", "?"):
+        d["cls"] = "FAULT"
+    if len(toks) > 1:
+        d["after"] = toks[1]
+    for tok in toks[2:]:
+        if "=" in tok:
+            k, v = tok.split("=", 1); d[k] = v
+    return d
+
+def eq_masked(a, b):
+    """b may contain `..` wildcards (bytes the model says are padding-derived)"""
+    if a == b: return True
+    if a is None or b is None or len(a) != len(b): return False
+    for i in range(0, len(a), 2):
+        if a[i:i+2] != b[i:i+2] and b[i:i+2] != "..": return False
+    return True
+
+def strip_caps(w):
+    return re.sub(r"([VS])\d+", r"\1", w or "")
+
+def probe_fields(p):
+    """`ok:v=..:z=..:walk` -> dict"""
+    if p is None: return None
+    if not p.startswith("ok:"): return dict(ok=False, raw=p)
+    _, v, z, w = p.split(":", 3)
+    return dict(ok=True, v=int(v[2:]), z=int(z[2:]), w=w)
+
 def load_pairs(m):
     """yield (lhs, impl_rhs, model_rhs) for case lines; type table separately"""
     types = {}
@@ -214,8 +263,8 @@ def load_pairs(m):
 # property definitions
 # ------------------------------------------------------------------------------------------------
 class Finding:
-    def __init__(self, prop, kind, suite, lhs, impl, model, what):
-        self.prop, self.kind, self.suite, self.lhs, self.impl, self.model, self.what = prop, kind, suite, lhs, impl, model, what
+    def __init__(self, prop, kind, suite, lhs, impl, model, what, tdesc=""):
+        self.prop, self.kind, self.suite, self.lhs, self.impl, self.model, self.what, self.tdesc = prop, kind, suite, lhs, impl, model, what, tdesc
     def key(self):
         return hashlib.sha256((self.suite + self.lhs).encode()).hexdigest()[:10]
 
@@ -270,10 +319,21 @@ def oracle_C04(lhs, o, t):
     return None
 
 def proj_C05(lhs, o, t):
+    if lhs[0] in "EFA":
+        p = probe_fields(o.get("p")); p2 = probe_fields(o.get("p2"))
+        return (p["z"] if p and p["ok"] else None, p2["z"] if p2 and p2["ok"] else None)
     if o["cls"] == "ok":
         return (o.get("z"), o.get("rm"))
     return ()
 def oracle_C05(lhs, o, t):
+    if lhs[0] in "EFA":
+        n = hexlen(lhs.split(" ")[-1])
+        for key in ("p", "p2"):
+            p = probe_fields(o.get(key))
+            if p and p["ok"]:
+                if p["z"] > n: return f"after construction/assignment size() = {p['z']} exceeds the {n}-byte buffer"
+                if p["z"] % t["align"] != 0: return f"after construction/assignment size() = {p['z']} is not a multiple of ALIGN {t['align']}"
+        return None
     if o["cls"] != "ok":
         return None
     n = bytes_len(lhs)
@@ -312,11 +372,136 @@ def oracle_C19(lhs, o, t):
             return f"error position {o['pos']} is outside the {bytes_len(lhs)}-byte slice"
     return None
 
+# ---- emplacement suite (E = new_in_place, F = default_in_place, A = assign_in_place) ----------------------
+def lhs_fields(lhs):
+    """-> kind, tid, a16, init text(s), pre hex"""
+    f = lhs.split(" ")
+    return f[0], int(f[1]), int(f[3]), " ".join(f[4:-1]), f[-1]
+def hexlen(h):
+    return 0 if h == "-" else len(h) // 2
+
+def proj_C03(lhs, o, t):
+    if lhs[0] != "E" or o["cls"] != "ok": return ()
+    return (o.get("after"), o.get("spec"), o.get("p"))
+def oracle_C03(lhs, o, t):
+    if lhs[0] != "E" or o["cls"] != "ok": return None
+    p = probe_fields(o.get("p"))
+    if p is None or not p["ok"]: return f"the emplaced bytes do not validate: {o.get('p')}"
+    if strip_caps(p["w"]) != o.get("spec"): return f"read back {strip_caps(p['w'])}, specified {o.get('spec')}"
+    if "!OVER" in p["w"]: return "a container reports len > capacity after emplacement"
+    if p["z"] > hexlen(o.get("after_raw", o.get("after"))): return f"size() {p['z']} exceeds the buffer"
+    return None
+
+def proj_C15(lhs, o, t):
+    if lhs[0] not in "EF": return ()
+    return (o["cls"], o.get("kind"))
+def oracle_C15(lhs, o, t):
+    if lhs[0] not in "EF": return None
+    kind, tid, a16, init, pre = lhs_fields(lhs)
+    n = hexlen(pre)
+    if o["cls"] in ("PANIC", "MEMFAULT"): return f"emplacement ended with {o['cls']}"
+    if a16 % t["align"] != 0:
+        if not (o["cls"] == "err" and o["kind"] == "badAlign"): return f"misaligned buffer (address % {t['align']} = {a16 % t['align']}) gave {o['res']} instead of BadAlign"
+        return None
+    if n < t["min"]:
+        if not (o["cls"] == "err" and o["kind"] == "insufficientSize"): return f"{n}-byte buffer, MIN_SIZE {t['min']}: {o['res']} instead of InsufficientSize"
+        return None
+    if o["cls"] == "err" and o["kind"] != "insufficientSize": return f"aligned buffer refused with {o['res']}"
+    if o["cls"] == "ok" and lhs[0] == "E":
+        return oracle_C03(lhs, o, t)     # "accepted and then satisfies C03"
+    return None
+def post_C15(cases):
+    """once an aligned buffer of some length is accepted, every longer one is accepted too"""
+    out = []
+    first_ok = {}
+    for (sname, lhs, rhs, mo, o, t) in cases:
+        if lhs[0] not in "EF": continue
+        kind, tid, a16, init, pre = lhs_fields(lhs)
+        if a16 % t["align"] != 0: continue
+        key = (kind, tid, init)
+        n = hexlen(pre)
+        if o["cls"] == "ok":
+            first_ok[key] = min(first_ok.get(key, 1 << 30), n)
+    for (sname, lhs, rhs, mo, o, t) in cases:
+        if lhs[0] not in "EF": continue
+        kind, tid, a16, init, pre = lhs_fields(lhs)
+        if a16 % t["align"] != 0: continue
+        n = hexlen(pre)
+        if o["cls"] == "err" and n > first_ok.get((kind, tid, init), 1 << 30):
+            out.append((sname, lhs, rhs, mo, f"a {first_ok[(kind, tid, init)]}-byte buffer holds this content but a {n}-byte one is refused with {o['res']}"))
+    return out
+
+def has_filled_container(init):
+    return re.search(r"\((va|vi|sf|fi) [^)]", init) is not None
+def proj_C18(lhs, o, t):
+    if lhs[0] != "A": return ()
+    return (o.get("res"), o.get("after"), o.get("p"), o.get("a2"), o.get("p2"))
+def oracle_C18(lhs, o, t, om):
+    if lhs[0] != "A": return None
+    if o["cls"] in ("PANIC", "MEMFAULT"): return f"assign_in_place ended with {o['cls']}"
+    if o["cls"] == "notvalid": return None   # the harness's own precondition failed (reported by C03/C05 suites)
+    p = probe_fields(o.get("p"))
+    if o["cls"] == "err":
+        if p is None or not p["ok"]:
+            return ("INVALID-AS-MODELLED" if o.get("p") == om.get("p") and o.get("after") == om.get("after") else "INVALID") + f" after a failed assign_in_place: {o.get('p')}"
+        if (o.get("a2") or "").startswith("PANIC") or (o.get("p2") or "").startswith("PANIC"): return "panic when the value is used again after a failed assign_in_place"
+        p2 = probe_fields(o.get("p2"))
+        if p2 is None or not p2["ok"]: return f"INVALID after assigning again: {o.get('p2')}"
+        kind, tid, a16, init, pre = lhs_fields(lhs)
+        if o["kind"] == "insufficientSize" and o.get("after_raw", o.get("after")) != pre:
+            if o.get("after") == om.get("after"):
+                return "CHANGED-AS-MODELLED: target changed (still valid) by a failed assign for lack of room"
+            return "target changed by a failed assign for lack of room"
+    return None
+
+def proj_C20(lhs, o, t):
+    if lhs[0] != "F": return ()
+    return (o.get("res"), o.get("after"), o.get("p"))
+def oracle_C20(lhs, o, t):
+    if lhs[0] != "F": return None
+    if o["cls"] in ("PANIC", "MEMFAULT"): return f"default_in_place ended with {o['cls']}"
+    if o["cls"] == "ok":
+        p = probe_fields(o.get("p"))
+        if p is None or not p["ok"]: return f"the default value does not validate: {o.get('p')}"
+        if p["z"] % t["align"] != 0 or p["z"] < t["min"]: return f"default value has size() {p['z']}"
+    return None
+def post_C20(cases):
+    """the default content and its size() do not depend on the buffer's prior contents or length"""
+    out, seen = [], {}
+    for (sname, lhs, rhs, mo, o, t) in cases:
+        if lhs[0] != "F" or o["cls"] != "ok": continue
+        p = probe_fields(o.get("p"))
+        if not p or not p["ok"]: continue
+        tid = int(lhs.split(" ")[1])
+        cur = (strip_caps(p["w"]), p["z"])
+        if tid in seen and seen[tid][0] != cur:
+            out.append((sname, lhs, rhs, mo, f"default value differs between buffers: {cur} here, {seen[tid][0]} for {seen[tid][1]}"))
+        seen.setdefault(tid, (cur, lhs))
+    return out
+
+def proj_C14e(lhs, o, t):
+    return (o.get("after"), o.get("outside", False))
+def oracle_C14e(lhs, o, t):
+    if o.get("outside"): return "bytes outside the buffer handed to the library were modified"
+    if o["cls"] == "MEMFAULT": return "memory fault"
+    if lhs[0] == "A" and o["cls"] in ("ok", "err"):
+        kind, tid, a16, init, pre = lhs_fields(lhs)
+        p = probe_fields(o.get("p"))
+        if p and p["ok"]:
+            v = p["v"]
+            a = o.get("after_raw", o.get("after"))
+            if a[2 * v:] != pre[2 * v:]: return f"assign_in_place changed bytes after the value's own {v} bytes"
+    return None
+
 PROPS = {
     "C01": dict(module="FV.Props.C01", theorems=["FV.Props.C01_validate_total", "FV.Props.C01_from_bytes_total"], suites=["bytes"], proj=proj_C01, oracle=oracle_C01),
     "C02": dict(module="FV.Props.C02", theorems=["FV.Props.C02_view_within", "FV.Props.C02_truncation_validates"], suites=["bytes"], proj=proj_C02, oracle=oracle_C02),
     "C04": dict(module="FV.Props.C04", theorems=["FV.Props.C04_view_fits", "FV.Props.C04_ceil_least", "FV.Props.C04_floor_greatest", "FV.Props.C04_positions_eq_c", "FV.Props.C04_struct_size_eq_c", "FV.Props.C04_enum_data_offset_eq_c", "FV.Props.C04_vec_data_offset_eq_c"], suites=["bytes"], proj=proj_C04, oracle=oracle_C04),
-    "C05": dict(module="FV.Props.C05", theorems=["FV.Props.C05_size_exact"], suites=["bytes"], proj=proj_C05, oracle=oracle_C05),
+    "C05": dict(module="FV.Props.C05", theorems=["FV.Props.C05_size_exact"], suites=["bytes", "emplace"], proj=proj_C05, oracle=oracle_C05),
+    "C03": dict(module="FV.Props.C03", theorems=["FV.Props.C03_vec_from_iterator_partial"], suites=["emplace"], proj=proj_C03, oracle=oracle_C03),
+    "C15": dict(module="FV.Props.C15", theorems=["FV.Props.C15_vec_from_iterator_partial"], suites=["emplace"], proj=proj_C15, oracle=oracle_C15, post=post_C15),
+    "C18": dict(module="FV.Props.C18", theorems=["FV.Props.C18_vec_from_iterator_partial"], suites=["emplace"], proj=proj_C18, oracle=oracle_C18),
+    "C20": dict(module="FV.Props.C20", theorems=["FV.Props.C20_vec_default_partial"], suites=["emplace"], proj=proj_C20, oracle=oracle_C20, post=post_C20),
     "C06": dict(module="FV.Props.C06", theorems=["FV.Props.C06_prefix_insufficient", "FV.Props.C06_extension_same"], suites=["bytes"], proj=proj_C06, oracle=oracle_C06),
 }
 
@@ -370,6 +555,8 @@ def lean_obligations(prop, cfg, thorough):
 # ------------------------------------------------------------------------------------------------
 # known findings
 # ------------------------------------------------------------------------------------------------
+SUITE_PARSE = {"bytes": parse_rhs, "emplace": parse_emp}
+
 def load_known():
     p = os.path.join(VERIF, "known_findings.json")
     if os.path.exists(p):
@@ -382,7 +569,7 @@ def match_known(known, finding):
             continue
         if k.get("suite") and k["suite"] != finding.suite:
             continue
-        if re.search(k["lhs_regex"], finding.lhs) and re.search(k.get("what_regex", ""), finding.what):
+        if re.search(k["lhs_regex"], finding.lhs) and re.search(k.get("what_regex", ""), finding.what) and re.search(k.get("desc_regex", ""), finding.tdesc):
             return k
     return None
 
@@ -392,7 +579,7 @@ def match_known(known, finding):
 def write_replay(f, extra=None):
     os.makedirs(os.path.join(VERIF, "replays"), exist_ok=True)
     path = os.path.join(VERIF, "replays", f"{f.prop}-{f.key()}.json")
-    d = dict(property=f.prop, kind=f.kind, suite=f.suite, case=f.lhs, implementation=f.impl, model=f.model, what=f.what,
+    d = dict(property=f.prop, kind=f.kind, suite=f.suite, type=f.tdesc, case=f.lhs, implementation=f.impl, model=f.model, what=f.what,
              replay_cmd=f"./check --replay replays/{f.prop}-{f.key()}.json")
     if extra:
         d.update(extra)
@@ -414,6 +601,8 @@ def check_property(prop, tier, seed):
     stats = dict(cases=0, mismatches=0, oracle_failures=0, nontrivial=set(), dist=collections.Counter(), samples=[])
     oracle_findings, mismatch_findings = [], []
     suites_meta = {}
+    group_cases = []
+    known_counts = collections.Counter()
     if okh:
         for sname in cfg["suites"]:
             with Lock():
@@ -426,18 +615,30 @@ def check_property(prop, tier, seed):
             for lhs, rhs, mo in cases:
                 tid = int(lhs.split(" ")[1])
                 t = types[tid]
-                oi, om = parse_rhs(rhs), parse_rhs(mo)
+                parse = SUITE_PARSE[sname]
+                oi, om = parse(rhs), parse(mo)
+                if "after" in oi and "after" in om and eq_masked(oi["after"], om["after"]):
+                    oi["after_raw"] = oi["after"]; oi["after"] = om["after"]
                 stats["cases"] += 1
                 pi, pm = cfg["proj"](lhs, oi, t), cfg["proj"](lhs, om, t)
+                if "post" in cfg:
+                    group_cases.append((sname, lhs, rhs, mo, oi, t))
                 if pi != pm:
                     stats["mismatches"] += 1
                     if len(mismatch_findings) < 50:
                         mismatch_findings.append(Finding(prop, "correspondence", sname, lhs, rhs, mo, f"implementation and model differ on the observables of {prop}: {pi} vs {pm}"))
-                w = cfg["oracle"](lhs, oi, t)
+                w = cfg["oracle"](lhs, oi, t, om) if cfg["oracle"].__code__.co_argcount == 4 else cfg["oracle"](lhs, oi, t)
                 if w:
                     stats["oracle_failures"] += 1
-                    if len(oracle_findings) < 200:
-                        oracle_findings.append(Finding(prop, "oracle", sname, lhs, rhs, mo, w))
+                    f = Finding(prop, "oracle", sname, lhs, rhs, mo, w, t["desc"])
+                    k = match_known(known, f)
+                    if k:
+                        known_counts[k["id"]] += 1
+                        line = f"KNOWN-FINDING: property={prop} {k['title']}"
+                        if line not in known_lines:
+                            known_lines.append(line)
+                    elif len(oracle_findings) < 200:
+                        oracle_findings.append(f)
                 # statistics
                 trivial = oi["cls"] == "err" and oi.get("pos") == 0 and oi.get("kind") in ("badAlign", "insufficientSize")
                 branch = oi["cls"] + (":" + oi["kind"] if oi["cls"] == "err" else "")
@@ -448,6 +649,10 @@ def check_property(prop, tier, seed):
                     stats["samples"].append(dict(case=lhs, implementation=rhs[:300], model=mo[:300]))
             if m["crashed"] and not any(f.what.startswith("from_bytes/validate ended with MEMFAULT") for f in oracle_findings):
                 oracle_findings.append(Finding(prop, "oracle", sname, cases[-1][0] if cases else "?", "process crashed rc=%s" % m["rc"], "", "the harness process crashed (memory fault or abort) while running this case: " + m["stderr"][-300:]))
+    if "post" in cfg and group_cases:
+        for (sname, lhs, rhs, mo, what) in cfg["post"](group_cases):
+            stats["oracle_failures"] += 1
+            oracle_findings.append(Finding(prop, "oracle", sname, lhs, rhs, mo, what))
     # ---- verdict
     reported = set()
     def report(f, suffix=""):
@@ -498,6 +703,7 @@ def check_property(prop, tier, seed):
                           "correspondence check (harness, generators, projection, comparison) tying the hand-written model to /repo",
                           "rustc, cargo, the OS"],
             theorems=[dict(name=o["name"], discharged=o["ok"], axioms=o["axioms"], detail=o["detail"]) for o in obligations],
+            known_findings_seen=dict(known_counts),
             correspondence=dict(suites=suites_meta, cases=stats["cases"], mismatches_in_projection=stats["mismatches"], oracle_failures=stats["oracle_failures"],
                                 outcome_distribution=dict(stats["dist"])),
             evaluations=stats["cases"], distinct_nontrivial=len(stats["nontrivial"]),
